@@ -88,19 +88,20 @@ struct E5 : Engine {
 		static const char *encs[] = {"hmac","hmac-md5","hmac-sha1","hmac-sha224","hmac-sha256","hmac-sha384","hmac-sha512","aes","aes128","aes192","aes256","split-sha1","split-sha256"};
 		if(prop == "C05"){
 			p["enc"] = encs[r.below(13)]; p["key_seed"] = (int)r.below(1000); p["timeout"] = 10 + (int)r.below(3000);
+			if(r.below(6) == 0){ J uf = J::arr(); int n = 1 + (int)r.below(3); for(int k=0;k<n;k++) uf.push((int)r.below(r.below(2) ? 4 : 30)); p["urandom_fail"] = uf; }   // no entropy: open("/dev/urandom") fails at these calls (descriptor exhaustion)
 			p["strategy"] = (int)r.below(3); p["pct_depth"] = 1 + (int)r.below(3); p["pct_len"] = 20 + (int)r.below(400);
 #if defined(VERIF_TSAN_VARIANT)
 			bool race = true;    // the TSan build runs only the scenario that has threads in it
 #else
 			bool race = r.below(25) == 0;
 #endif
-			if(race){ p["poolrace"] = 2 + (int)r.below(3); p["len"] = (int)r.below(300); return p; }   // a fresh session_pool used by several worker threads at once: first use of the encryptor factory included
+			if(race){ p["poolrace"] = 2 + (int)r.below(3); p["len"] = (int)r.below(300); p["urandom_fail"] = J::arr(); return p; }   // a fresh session_pool used by several worker threads at once: first use of the encryptor factory included
 			J ops = J::arr(); int n = 3 + r.below(thorough ? 40 : 16);
 			for(int i=0;i<n;i++){ J o = J::obj(); unsigned x = r.below(100);
 				if(x < 30){ o["op"] = "save"; unsigned y = r.below(10); o["len"] = (int)(y < 5 ? r.below(64) : y < 9 ? r.below(2000) : r.below(thorough ? 65000 : 20000)); o["fill"] = (int)r.below(3); o["age"] = r.below(4) == 0 ? (int)(1 + r.below(50)) : -1; }
 				else if(x < 50){ o["op"] = "load"; }
 				else if(x < 62){ o["op"] = "tick"; unsigned y = r.below(10); o["s"] = y < 6 ? (int)r.below(20) : y < 9 ? (int)r.below(4000) : (int)r.below(100000000); }
-				else { o["op"] = "attack"; static const char *kinds[] = {"flip","flip","truncate","extend","swap_blocks","splice","other_key","other_algo","prefix","random","replay_old","b64_noncanon","empty_cipher"}; o["kind"] = kinds[r.below(13)]; o["pos"] = (long long)r.below(1000000); o["n"] = (int)(1 + r.below(40)); o["a"] = (int)r.below(8); o["b"] = (int)r.below(8); }
+				else { o["op"] = "attack"; static const char *kinds[] = {"flip","flip","truncate","extend","swap_blocks","splice","other_key","other_algo","prefix","random","replay_old","b64_noncanon","empty_cipher","tag_guess","tag_guess","tag_guess"}; o["kind"] = kinds[r.below(16)]; o["pos"] = (long long)r.below(1000000); o["n"] = (int)(1 + r.below(40)); o["a"] = (int)r.below(8); o["b"] = (int)r.below(8); }
 				ops.push(o); }
 			p["ops"] = ops; p["flip_base"] = (long long)(runner_idx >= 0 ? runner_idx : 0);
 			return p;
@@ -139,7 +140,9 @@ struct E5 : Engine {
 	}
 
 	static std::string hexkey(int seed,int bytes){ std::string k; simk::Rng r; r.seed(777 + seed); static const char *hx = "0123456789abcdef"; for(int i=0;i<bytes*2;i++) k += hx[r.below(16)]; return k; }
-	static void configure_enc(cppcms::json::value &v,const std::string &enc,int key_seed){
+	static std::string norm_enc(const std::string &e){ static const char *known[] = {"hmac","hmac-md5","hmac-sha1","hmac-sha224","hmac-sha256","hmac-sha384","hmac-sha512","aes","aes128","aes192","aes256","split-sha1","split-sha256"}; for(auto k:known) if(e == k) return e; return "hmac"; }   // anything else is reached only by minimisation
+	static void configure_enc(cppcms::json::value &v,const std::string &enc_in,int key_seed){
+		std::string enc = norm_enc(enc_in);
 		if(enc.compare(0,5,"split") == 0){ v["session"]["client"]["hmac"] = enc.substr(6); v["session"]["client"]["hmac_key"] = hexkey(key_seed,24); v["session"]["client"]["cbc"] = "aes"; v["session"]["client"]["cbc_key"] = hexkey(key_seed+1,16); }
 		else { v["session"]["client"]["encryptor"] = enc; int kb = enc.compare(0,3,"aes") == 0 ? (enc == "aes192" ? 24 : enc == "aes256" ? 32 : 16) : 20; v["session"]["client"]["key"] = hexkey(key_seed,kb); }
 	}
@@ -173,7 +176,7 @@ struct E5 : Engine {
 	struct Issued { std::string cookie, cipher; MData data; int64_t deadline; };
 	void run_c05(const J &plan,RunResult &res,std::map<std::string,int64_t> &cnt){
 		cppcms::json::value v = settings(plan,"client"); v["session"]["expire"] = "fixed";
-		std::string enc = plan.gets("enc","hmac");
+		std::string enc = norm_enc(plan.gets("enc","hmac"));
 		cppcms::session_pool pool(v); pool.init();
 		if(plan.has("poolrace")){
 			// worker threads of one process share the pool: each serves its own browser (own jar, own session_interface); the only shared object is the code under test
@@ -201,9 +204,12 @@ struct E5 : Engine {
 		const J &ops = plan.get("ops"); std::set<std::string> seen_blocks;
 		auto now = []{ return simk::now_us()/1000000; };
 		auto save_with = [&](cppcms::session_pool &pl,Jar &j,const std::string &payload,int age)->Issued { session_interface s(pl,j); s.load(); s.clear(); s.set("d",payload); if(age > 0) s.age(age); else s.default_age();   /* clear() keeps the age loaded from the previous session */ s.reset_session(); s.save(); Issued is; is.cookie = j.jar.count(PREFIX) ? j.jar[PREFIX].value : ""; bool ok; is.cipher = is.cookie.empty() ? "" : my_b64url_decode(is.cookie.substr(1),ok); is.data["d"].value = payload; if(age > 0) is.data["_t"].value = std::to_string(age); is.deadline = now() + (age > 0 ? age : timeout); return is; };
-		for(size_t i=0;i<ops.size() && res.ok;i++){ const J &o = ops.a[i]; std::string op = o.gets("op"); std::string where = "op#" + std::to_string(i) + " " + op;
+		for(size_t i=0;i<ops.size() && res.ok;i++){ const J &o = ops.a[i]; std::string op = o.gets("op"); std::string where = "op#" + std::to_string(i) + " " + op; uint64_t uf_op = simk::stats().urandom_open_failed; try {
 			if(op == "save"){ std::string payload = wire::gen_bytes(i*31 + 5,(size_t)std::max<int64_t>(0,std::min<int64_t>(o.geti("len"),70000)),(int)o.geti("fill")); if(o.geti("fill") == 2 && !last_payload.empty()) payload = last_payload;   // identical payload twice
-				Issued is = save_with(pool,jar,payload,(int)o.geti("age",-1)); cnt["saves"]++;
+				uint64_t uf0 = simk::stats().urandom_open_failed; Issued is; bool save_failed = false;
+				try { is = save_with(pool,jar,payload,(int)o.geti("age",-1)); } catch(std::exception const &e){ if(simk::stats().urandom_open_failed == uf0){ res.fail("save-threw",where + ": save() threw " + e.what()); break; } save_failed = true; }
+				if(save_failed){ cnt["saves_refused_without_entropy"]++; jar.jar.erase(PREFIX); continue; }   // without entropy refusing is right; what must never happen is a cookie made with a predictable IV (checked below like any other)
+				cnt["saves"]++;
 				if(is.cookie.empty() || is.cookie[0] != 'C'){ res.fail("no-cookie-issued",where + ": save did not set a client-side session cookie"); break; }
 				{ std::string why = independent_tag_check(enc,(int)plan.geti("key_seed"),is.cipher); cnt["tags_recomputed_independently"]++; if(!why.empty()){ res.fail("cookie-not-authenticated-with-the-configured-key",where + ": " + why); break; } }
 				if(encrypting){
@@ -213,7 +219,8 @@ struct E5 : Engine {
 				}
 				issued.push_back(is); last_payload = payload;
 				// save-then-load is the identity
-				{ session_interface s(pool,jar); s.load(); if(!s.is_set("d") || s.get("d") != payload) res.fail("save-load-mismatch",where + ": loading right after saving did not return the payload (" + std::to_string(payload.size()) + " bytes)"); } }
+				{ uint64_t uf1 = simk::stats().urandom_open_failed; session_interface s(pool,jar); bool threw = false; try { s.load(); } catch(std::exception const &){ if(simk::stats().urandom_open_failed == uf1) throw; threw = true; cnt["loads_refused_without_entropy"]++; }
+				  if(!threw && (!s.is_set("d") || s.get("d") != payload)) res.fail("save-load-mismatch",where + ": loading right after saving did not return the payload (" + std::to_string(payload.size()) + " bytes)"); } }
 			else if(op == "tick"){ simk::advance_us(std::max<int64_t>(0,std::min<int64_t>(o.geti("s"),200000000))*1000000); cnt["ticks"]++; }
 			else if(op == "load" || op == "attack"){
 				std::string presented;
@@ -232,12 +239,15 @@ struct E5 : Engine {
 					else if(kind == "replay_old"){ c = A.cookie; }
 					else if(kind == "b64_noncanon"){ c += al[o.geti("pos") % 64]; c.resize(c.size()-1); if(!c.empty()){ const char *q = strchr(al,c.back()); int vv = q ? (int)(q-al) : 0; c.back() = al[(vv ^ 1) & 63]; } }
 					else if(kind == "empty_cipher"){ c = "C"; }
+					else if(kind == "tag_guess"){   // the body stays, 2..8 bytes of the authentication tag (the last 16 bytes belong to it for every algorithm) are replaced by guesses
+						bool ok; std::string ci = my_b64url_decode(c.substr(1),ok); if(ok && ci.size() >= 16){ simk::Rng g; g.seed((uint64_t)o.geti("pos") * 2654435761u + (uint64_t)i); int m = 2 + (int)g.below(7); for(int k=0;k<m;k++){ size_t at = ci.size() - 1 - g.below(16); ci[at] = (char)(ci[at] ^ (char)(1 + g.below(255))); } c = "C" + b64(ci); } }
 					Jar::C e; e.value = c; e.expires = -1; jar.jar[PREFIX] = e; }
 				presented = jar.get_session_cookie(PREFIX);
 				bool dok = false; std::string pc = presented.size() > 1 ? my_b64url_decode(presented.substr(1),dok) : std::string();
 				const Issued *match = nullptr; if(!presented.empty() && presented[0] == 'C' && dok) for(auto &is:issued) if(is.cipher == pc) match = &is;
-				session_interface s(pool,jar); bool loaded = false;
-				try { loaded = s.load(); } catch(std::exception const &e){ res.fail("load-threw",where + ": load() threw " + e.what() + " for cookie " + wire::esc(presented.substr(0,60))); break; }
+				session_interface s(pool,jar); bool loaded = false; uint64_t ufl = simk::stats().urandom_open_failed; bool load_failed = false;
+				try { loaded = s.load(); } catch(std::exception const &e){ if(simk::stats().urandom_open_failed == ufl){ res.fail("load-threw",where + ": load() threw " + e.what() + " for cookie " + wire::esc(presented.substr(0,60))); break; } load_failed = true; }
+				if(load_failed){ cnt["loads_refused_without_entropy"]++; continue; }   // an encryptor cannot be set up without entropy: the request fails, nothing was accepted
 				cnt["loads"]++;
 				bool want = match && match->deadline >= now();
 				if(loaded && !want){ res.fail(match ? "expired-session-accepted" : "forged-session-accepted",where + ": load() accepted a cookie that " + (match ? "expired " + std::to_string((long)(now() - match->deadline)) + " s ago" : "this server never issued") + " (" + std::to_string(presented.size()) + " chars, attack " + o.gets("kind") + ")"); break; }
@@ -249,6 +259,7 @@ struct E5 : Engine {
 				else { cnt["loads_rejected"]++; if(s.is_set("d")) res.fail("data-after-rejection",where + ": rejected session still exposes data");
 					if(!presented.empty() && jar.jar.count(PREFIX) && jar.jar[PREFIX].value == presented && presented[0] == 'C'){ res.fail("bad-cookie-not-cleared",where + ": the rejected cookie was not cleared from the browser"); break; } }
 			}
+		} catch(std::exception const &){ if(simk::stats().urandom_open_failed == uf_op) throw; cnt["ops_failed_without_entropy"]++; }   // whatever needs entropy may fail when there is none; nothing was accepted or issued
 		}
 		// configurations that must be refused
 		if(res.ok){ cppcms::json::value b = settings(plan,"client"); cppcms::json::value c; b["session"]["client"] = c; b["session"]["client"]["cbc"] = "aes"; b["session"]["client"]["cbc_key"] = hexkey(1,16); bool threw = false; try { cppcms::session_pool p(b); p.init(); } catch(std::exception const &){ threw = true; } if(!threw) res.fail("weak-config-accepted","CBC encryption without a MAC was accepted"); cnt["config_refusal_checks"]++;
@@ -409,6 +420,7 @@ struct E5 : Engine {
 		simk::Params sp; sp.fault_seed = (uint64_t)plan.geti("fault_seed",1); sp.sched_seed = (uint64_t)plan.geti("sched_seed",1); sp.tick_us = 0;
 		sp.strategy = (int)(((plan.geti("strategy") % 3) + 3) % 3); sp.pct_depth = (int)std::max<int64_t>(1,std::min<int64_t>(plan.geti("pct_depth",2),8)); sp.pct_len = (int)std::max<int64_t>(1,plan.geti("pct_len",500)); sp.text_trace = plan.geti("text_trace");
 		sp.p_file_short = (unsigned)std::max<int64_t>(0,std::min<int64_t>(plan.geti("p_file_short"),900)); sp.p_file_eintr = (unsigned)std::max<int64_t>(0,std::min<int64_t>(plan.geti("p_file_eintr"),500)); sp.file_short_min = 2;
+		{ const J &uf = plan.get("urandom_fail"); for(size_t k=0;k<uf.size() && k<8;k++) sp.urandom_fail_at.push_back((uint32_t)std::max<int64_t>(0,std::min<int64_t>(uf.a[k].as_int(),100000))); }
 		simk::begin(sp);
 		try { if(plan.gets("prop") == "C05") run_c05(plan,res,cnt); else run_c06(plan,res,cnt); }
 		catch(std::exception const &e){ res.fail("harness-or-library-exception",std::string("unexpected exception: ") + e.what()); }
